@@ -145,7 +145,7 @@ package kvcache
 //@ extern func (*Causal).moveCells
 //@   requires 0 <= src && 0 <= dst && 0 <= length && dst + length <= src && src + length <= len(c.cells)
 //@   modifies c.ghost_dat[all]
-//@   ensures forall k int :: 0 <= k && k < length ==> c.ghost_dat[dst+k] == old(c.ghost_dat[src+k])
+//@   ensures forall j int :: dst <= j && j < dst + length ==> c.ghost_dat[j] == old(c.ghost_dat[j-dst+src])
 //@   ensures forall j int :: j < dst || dst + length <= j ==> c.ghost_dat[j] == old(c.ghost_dat[j])
 
 // defrag: loops 1 (count layers), 2 (dst ascending), 3 (src descending), 4 (sequences), 5 (cells)
@@ -159,6 +159,6 @@ package kvcache
 //@   loop 2 invariant forall j int :: pendingLen == 0 || j >= pendingDst ==> c.ghost_dat[j] == j
 //@   loop 2 invariant forall j int, g int :: 0 <= j && j < dst && (pendingLen == 0 || j < pendingDst || j >= pendingDst + pendingLen) && g == c.ghost_dat[j] && len(c.cells[j].sequences) != 0 ==> 0 <= g && g < len(c.cells) && c.cells[j].pos == old(c.cells[g].pos) && c.cells[j].sequences == old(c.cells[g].sequences)
 //@   loop 2 invariant forall j int :: dst <= j && j <= src ==> (j == src && len(c.cells[j].sequences) == 0) || (c.cells[j].pos == old(c.cells[j].pos) && c.cells[j].sequences == old(c.cells[j].sequences))
-//@   loop 2 invariant forall k int :: 0 <= k && k < pendingLen ==> len(c.cells[pendingDst+k].sequences) != 0 && c.cells[pendingDst+k].pos == old(c.cells[pendingSrc+k].pos) && c.cells[pendingDst+k].sequences == old(c.cells[pendingSrc+k].sequences)
+//@   loop 2 invariant forall j int :: pendingDst <= j && j < pendingDst + pendingLen ==> len(c.cells[j].sequences) != 0 && c.cells[j].pos == old(c.cells[j-pendingDst+pendingSrc].pos) && c.cells[j].sequences == old(c.cells[j-pendingDst+pendingSrc].sequences)
 //@   loop 3 invariant dst <= src && src < len(c.cells) && (pendingLen > 0 ==> src <= pendingSrc)
 //@   loop 3 invariant forall j int :: dst <= j && j <= src ==> (j == src && len(c.cells[j].sequences) == 0) || (c.cells[j].pos == old(c.cells[j].pos) && c.cells[j].sequences == old(c.cells[j].sequences))
